@@ -120,8 +120,12 @@ let run_case (case : string) : string =
         let end_bad = spec_bad && (name = "upgrade" || (name = "poll" && (expect_text = "N" || text = "N"))) in
         let wakes_text = (match !woken_objs with
             | Some wo when wo <> [] ->
-              let l = List.sort_uniq compare (List.map (fun (k, i) -> (n2i k, n2i i)) wo) in
-              " w" ^ String.concat "," (List.map (fun (k, i) -> Printf.sprintf "%d:%d" k i) l)
+              (* per woken subscriber, the LAST of its entries (entries are in registration order): the
+                 waker object supplied to its latest Pending poll *)
+              let tbl = Hashtbl.create 8 in
+              List.iter (fun (k, i) -> Hashtbl.replace tbl (n2i k) (n2i i)) wo;
+              let ks = List.sort compare (Hashtbl.fold (fun k _ acc -> k :: acc) tbl []) in
+              " w" ^ String.concat "," (List.map (fun k -> Printf.sprintf "%d:%d" k (Hashtbl.find tbl k)) ks)
             | Some _ -> ""
             | None -> show_wakes w) in
         text ^ wakes_text ^ (if spec_bad then " ok:spec=0" else "") ^ (if counts_bad then " ok:counts=0" else "")
